@@ -200,6 +200,34 @@ func c06Notify(c *core.Ctx) {
 			}
 		}
 		usesSort := len(core.CallsTo(gs, "sort.Slice", "sort.SliceStable")) > 0
+		// slices.SortFunc(xs, func(a, b T) int { return cmp.Compare(a.Num, b.Num) })  (also a.Num - b.Num is NOT accepted:
+		// it overflows)
+		for _, a := range gs.AnonFuncs {
+			if len(a.Params) != 2 {
+				continue
+			}
+			for _, r := range core.Returns(a) {
+				if len(r.Results) != 1 {
+					continue
+				}
+				call, ok := r.Results[0].(*ssa.Call)
+				if !ok || !strings.HasPrefix(core.CallName(call), "cmp.Compare") {
+					continue
+				}
+				l, rr := sx.Of(call.Call.Args[0]).String(), sx.Of(call.Call.Args[1]).String()
+				p0, p1 := sx.Of(a.Params[0]).String(), sx.Of(a.Params[1]).String()
+				if l == p0+".Num" && rr == p1+".Num" {
+					okSort = true
+					for _, i := range gs.Blocks {
+						for _, ins := range i.Instrs {
+							if strings.HasPrefix(core.CallName(ins), "slices.SortFunc") || strings.HasPrefix(core.CallName(ins), "slices.SortStableFunc") {
+								usesSort = true
+							}
+						}
+					}
+				}
+			}
+		}
 		c.Decide(okSort && usesSort, rule, "reorgdetector.(*headersList).getSorted#ascending", gs.Pos(), "tracked blocks are examined in ascending block order (less = a[i].Num < a[j].Num)")
 	}
 }
@@ -209,6 +237,28 @@ func c06Tracked(c *core.Ctx) {
 	const rule = "C06-tracked"
 	sx := core.NewSymx()
 	n := 0
+	// the loader groups the rows of a subscriber by runs (a new list replaces the map entry when the id changes):
+	// that is only right when the rows arrive grouped, i.e. ORDER BY subscriber_id
+	if gt := c.MustFn(rule, "reorgdetector", "ReorgDetector", "getTrackedBlocks"); gt != nil {
+		ordered := false
+		nStmts := 0
+		for _, st := range orderedStatements(gt) {
+			if q := parseOrdered(st); q != nil && q.table == "TRACKED_BLOCK" {
+				nStmts++
+				ordered = len(q.keys) >= 1 && q.keys[0] == "SUBSCRIBER_ID" && len(q.where) == 0 && q.limit == ""
+			}
+		}
+		replacesPerRun := false
+		core.Instrs(gt, func(i ssa.Instruction) {
+			if mu, ok := i.(*ssa.MapUpdate); ok && core.InLoop(i) {
+				if cl, isCall := mu.Value.(*ssa.Call); isCall && strings.HasSuffix(core.CallName(cl), "newHeadersList") {
+					replacesPerRun = true
+				}
+			}
+		})
+		c.Decide(nStmts == 1 && (ordered || !replacesPerRun), rule, "reorgdetector.(*ReorgDetector).getTrackedBlocks#grouped", gt.Pos(),
+			fmt.Sprintf("every tracked row is loaded (no WHERE / LIMIT) and rows are grouped per subscriber: ORDER BY subscriber_id=%v, per-run replacement of the map entry=%v", ordered, replacesPerRun))
+	}
 	for _, fn := range c.AllFuncs() {
 		if fn.Pkg == nil || fn.Pkg.Pkg.Path() != core.P("reorgdetector") {
 			continue
